@@ -1,2 +1,48 @@
-import NrDaemon.Model.Proc
-/-! C11 — theorems (see DESIGN.md §6). -/
+import NrDaemon.Lemmas.Proc
+/-!
+  C11 — shutdown flushes every application and terminates.
+-/
+open Gen.Limits
+
+/-- **C11 (termination).**  The final flush returns for every state, every set of runs and every assignment of
+outcomes to the final requests: failed final requests are not handed to the (stopped) processor loop. -/
+theorem C11_terminates (s : PState) (outcomeOf : Req → Outcome) (order : List String) :
+    (cleanExit s outcomeOf order).2.2 = true := by
+  unfold cleanExit
+  suffices h : ∀ (acc : PState × List Req × Bool), acc.2.2 = true →
+      (order.foldl (fun (acc : PState × List Req × Bool) runId =>
+        let (s, reqs, alive) := acc
+        if !alive then acc else
+        match getRun s runId with
+        | none => acc
+        | some run =>
+          let (s, rs) := doHarvest s runId run maskAll
+          let s := rs.foldl (fun s r => { s with inflight := s.inflight.filter (·.id != r.id) }) s
+          (s, reqs ++ rs, alive)) acc).2.2 = true by
+    exact h _ rfl
+  induction order with
+  | nil => intro acc h; exact h
+  | cons r rs ih =>
+    intro acc h
+    simp only [List.foldl_cons]
+    apply ih
+    obtain ⟨s', reqs, alive⟩ := acc
+    simp only at h
+    subst h
+    simp only [Bool.not_true, Bool.false_eq_true, if_false]
+    split <;> rfl
+
+/-- the outcome assignment has no influence on what is flushed -/
+theorem C11_outcomes_irrelevant (s : PState) (o1 o2 : Req → Outcome) (order : List String) :
+    (cleanExit s o1 order).2.1 = (cleanExit s o2 order).2.1 := rfl
+
+/-- **C11 (flush is complete, all-at-once harvest).**  In the all-at-once harvest used by the final flush, every
+non-empty container handed to `considerMany` becomes a request (exactly the ten categories of
+`C01_harvest_all_complete`). -/
+theorem C11_flush_complete (s : PState) (a : HArgs) (l : List (Cat × Payload)) :
+    ∀ x ∈ l, x.2.isEmpty = false → ∃ r ∈ (considerMany s a l).2, r.cat = x.1 ∧ r.payload = x.2 :=
+  considerMany_complete s a l
+
+/-- the final flush harvests every category: the mask it uses has all ten bits -/
+theorem C11_flush_mask : maskAll % 1024 = maskAll ∧ (∀ b ∈ [1, 2, 4, 8, 16, 32, 64, 128, 256, 512], hasBit maskAll b = true) := by
+  decide
